@@ -178,6 +178,15 @@ CHECKS += [
      "note": _SCHED_NOTE},
 ]
 
+CHECKS += [
+    {"id": "C02", "engine": "opseq", "level": "model_checking",
+     "technique": "exhaustive DFS over edit/argument/file histories with a database snapshot per history prefix, differential oracle against an empty backend",
+     "text": "For 4 (quick) / 6 (thorough) program shapes every history of 3 (quick) / 4 (thorough) actions (set any task to any body incl. reverts, "
+     "publish a body under a new version, change the argument, rewrite the input file), each followed by a run on the shared backend; every "
+     "run's value or error must equal the same configuration run on an empty backend. The catch-cache staleness is a known finding.",
+     "note": _SCHED_NOTE + " File identity = (path, size, mtime); rewrites change both."},
+]
+
 _ALL = [f"C{i:02d}" for i in range(1, 39)]
 _claimed = {c["id"] for c in CHECKS}
 _REASONS = {}
